@@ -145,6 +145,9 @@ class Act(object):
                 inits['name'] = self.actor  # as yet unresolved name string
             inits['store'] = self.frame.store
             inits['act'] = self
+            if 'self' in inits:  # would collide with the instance in actor(**inits)
+                raise excepting.ResolveError("ResolveError: Init field may not be named 'self'",
+                                             'self', self.actor, self.human, self.count)
             self.actor = actor = actor(**inits) # instantiate and convert
 
             if self.prerefs: # preinits parms dict items 'do from'
@@ -218,6 +221,9 @@ class Act(object):
                                                              self.human,
                                                              self.count)
                             setattr(actor, key, share)
+            if 'self' in parms:  # would collide with the instance in ._resolve(**parms) and later calls
+                raise excepting.ResolveError("ResolveError: Parm field may not be named 'self'",
+                                             'self', self.actor, self.human, self.count)
             self.parms = parms
             self.parms.update(self.actor._resolve(**self.parms)) # resolve sub acts
             self.actor._prepare(**self.parms)
